@@ -36,7 +36,7 @@ func files(ext string, helpers bool) map[string]string {
 		"views/v2/sub/b" + ext:       `{{define "extra2"}}X2{{end}}{{define "h"}}H-v2{{end}}`,
 		"views/v2/readme.txt":        `not a template {{`,
 		// directories with unusual names ("any names"): dot-prefixed, blank inside, upper case
-		"views/v1/.partials/p" + ext:    `{{define "dotview"}}DV{{end}}`,
+		"views/v1/.partials/p" + ext:     `{{define "dotview"}}DV{{end}}`,
 		"layouts/default/.parts/q" + ext: `{{define "dotlayout"}}DL{{end}}`,
 		"layouts/alt/Sub Dir/r" + ext:    `{{define "spacedlayout"}}SL{{end}}`,
 	}
@@ -186,6 +186,15 @@ type Config struct {
 	Cached  bool `json:"cached"`
 	Helpers bool `json:"helpers"`
 	Overlap bool `json:"overlapping_definitions,omitempty"`
+	// Ext: the configured template file extension ("" = .gohtml / .gotext); any string is a suffix
+	Ext string `json:"extension,omitempty"`
+}
+
+func (c Config) ext() string {
+	if c.Ext != "" {
+		return c.Ext
+	}
+	return ext(c.HTML)
 }
 
 func ext(html bool) string {
@@ -197,10 +206,10 @@ func ext(html bool) string {
 
 func newFS(cfg Config) filesystem.Filespace {
 	fs, _ := memfs.NewFilespace()
-	fl := files(ext(cfg.HTML), cfg.Helpers)
+	fl := files(cfg.ext(), cfg.Helpers)
 	if cfg.Overlap {
 		for p, t := range overlapFiles {
-			fl[p+ext(cfg.HTML)] = t
+			fl[p+cfg.ext()] = t
 		}
 	}
 	var ps []string
@@ -216,20 +225,20 @@ func newFS(cfg Config) filesystem.Filespace {
 
 func newProvider(cfg Config, fs filesystem.Filespace) provider {
 	if cfg.HTML {
-		return hProv{ghprovider.NewProvider(fs, "helpers", "layouts/{name}", "views/{name}", ".gohtml", htmpl.FuncMap{}, cfg.Cached)}
+		return hProv{ghprovider.NewProvider(fs, "helpers", "layouts/{name}", "views/{name}", cfg.ext(), htmpl.FuncMap{}, cfg.Cached)}
 	}
-	return tProv{gtprovider.NewProvider(fs, "helpers", "layouts/{name}", "views/{name}", ".gotext", ttmpl.FuncMap{}, cfg.Cached)}
+	return tProv{gtprovider.NewProvider(fs, "helpers", "layouts/{name}", "views/{name}", cfg.ext(), ttmpl.FuncMap{}, cfg.Cached)}
 }
 
 // reference renders what the statement prescribes, directly with the standard library:
 // helpers, then the layout's files, then the view's files, most specific last.
 func reference(cfg Config, r Request) (string, string) {
-	fl := files(ext(cfg.HTML), cfg.Helpers)
+	fl := files(cfg.ext(), cfg.Helpers)
 	var order []string
 	under := func(dir string) []string {
 		var l []string
 		for p := range fl {
-			if strings.HasPrefix(p, dir+"/") && strings.HasSuffix(p, ext(cfg.HTML)) {
+			if strings.HasPrefix(p, dir+"/") && strings.HasSuffix(p, cfg.ext()) {
 				l = append(l, p)
 			}
 		}
@@ -535,6 +544,38 @@ func run(c *fw.Ctx) {
 			}
 		}
 	}
+	// other configured extensions: compound (two dots) and without a leading dot - the extension is a suffix
+	for _, html := range []bool{true, false} {
+		for _, e := range []string{".tmpl.html", "tpl"} {
+			for _, r1 := range requestPool {
+				for _, r2 := range append([]Request{{Kind: ""}}, requestPool...) {
+					reqs := []Request{r1}
+					if r2.Kind != "" {
+						reqs = append(reqs, r2)
+					}
+					item++
+					if !c.Mine(item) {
+						continue
+					}
+					var outs [2][]string
+					for ci, cached := range []bool{true, false} {
+						cfg := Config{HTML: html, Cached: cached, Helpers: true, Ext: e}
+						c.R.Evaluations++
+						c.Count("other_extension_sequences", 1)
+						o, f := runSequence(cfg, reqs)
+						outs[ci] = o
+						if f != nil {
+							f.kind += "/extension"
+							report(f, map[string]interface{}{"seq": seqWit{cfg, reqs}})
+						}
+					}
+					if strings.Join(outs[0], "\x00") != strings.Join(outs[1], "\x00") {
+						report(&finding{"cached-differs-from-uncached", "the result is the same with caching on or off", fmt.Sprintf("html=%v extension %q requests %v: cached outputs %q, uncached outputs %q", html, e, reqs, outs[0], outs[1])}, map[string]interface{}{"seq": seqWit{Config{HTML: html, Cached: true, Helpers: true, Ext: e}, reqs}})
+					}
+				}
+			}
+		}
+	}
 	// every failing filespace call during a first request, then the request again
 	for _, html := range []bool{true, false} {
 		for _, cached := range []bool{true, false} {
@@ -617,8 +658,8 @@ func replay(wj json.RawMessage) (*fw.Violation, error) {
 		_, f := runSequence(w.Seq.Config, w.Seq.Requests)
 		if f == nil {
 			// maybe a cached/uncached difference
-			a, _ := runSequence(Config{HTML: w.Seq.Config.HTML, Cached: true, Helpers: w.Seq.Config.Helpers}, w.Seq.Requests)
-			b, _ := runSequence(Config{HTML: w.Seq.Config.HTML, Cached: false, Helpers: w.Seq.Config.Helpers}, w.Seq.Requests)
+			a, _ := runSequence(Config{HTML: w.Seq.Config.HTML, Cached: true, Helpers: w.Seq.Config.Helpers, Ext: w.Seq.Config.Ext}, w.Seq.Requests)
+			b, _ := runSequence(Config{HTML: w.Seq.Config.HTML, Cached: false, Helpers: w.Seq.Config.Helpers, Ext: w.Seq.Config.Ext}, w.Seq.Requests)
 			if strings.Join(a, "\x00") != strings.Join(b, "\x00") {
 				return &fw.Violation{Property: "C19", Clause: "cache transparent", Signature: "C19/cached-differs-from-uncached", Detail: fmt.Sprintf("%q vs %q", a, b)}, nil
 			}
@@ -632,6 +673,6 @@ func replay(wj json.RawMessage) (*fw.Violation, error) {
 func init() {
 	fw.Register(&fw.Check{ID: "C19", Level: "model_checking",
 		Rule: "sequential: every sequence of <=3 requests from {Base, Layout(default|alt|''), View(default,v1|v2), View(alt,v1), View('',v2), View(default,missing)} x {HTML, text provider} x {helpers present, absent} x {cached, uncached}, plus all sequences of <=2 requests over nested names (layouts a and a/b, views b/c and c: joined names coincide) and a view with a file that does not parse (fails every time, later requests unaffected), each result rendered and compared (output of template 'page' and the set of defined template names) with a reference built directly on html/template / text/template (helpers, then layout files, then view files), and cached vs uncached outputs compared position by position; fault: every failing filespace call (ReadFile/ReadDir/IsDir...) during a first request followed by the same request on the healthy filespace; concurrent: 36 programs of 2-3 threads issuing first requests (same view, different views, view + layout, base + view, two requests per thread) under every schedule with <= bound preemptions with a happens-before state cache, callers' renderings compared with the reference and the race oracle applied to the providers' cache maps and fields. states = distinct schedule traces (concurrent part)",
-		Run: run, Replay: replay,
+		Run:  run, Replay: replay,
 		Assumptions: []string{"one file set with overlapping definitions on every layer; walk order = sorted paths", "2-3 threads; bounds as reported; a racing map read/write is what makes Go abort with 'concurrent map read and map write', which the race oracle decides deterministically"}})
 }
